@@ -285,6 +285,39 @@ def construct_request(case):
     return {'op': 'construct', 'events': out}
 
 
+def explicit_seed_probe(spec, events, min_conf, max_depth, upgrade_at):
+    """The less used way of mining: Miner.mine(seed=node) for one given node (a fresh miner, the same events). The instance of
+    that seed must hold the seed with confidence 1, and everything reported meets the minimum and lies in [0,1]."""
+    from edxml.miner.knowledge import KnowledgeBase
+    from edxml.miner import Miner
+    from edxml.miner.node import EventObjectNode
+    from vf import gen
+    try:
+        kb = KnowledgeBase()
+        m = Miner(kb)
+        m.add_ontology(build_ontology(spec, extra=upgrade_at is not None))
+        for ev in events:
+            m.add_event(gen.build_event(ev, 'plain'))
+        cands = sorted((n for n in m._graph._nodes.values() if isinstance(n, EventObjectNode)), key=lambda n: n.id)
+        if not cands:
+            return None
+        seed = cands[len(cands) // 2]
+        m.mine(seed, min_conf, max_depth)
+        inst = kb.concept_collection.concepts.get(seed.id)
+        if inst is None:
+            return 'mining with the explicit seed %s yields no instance for it' % seed.id
+        if not any(seed.id in a.nodes for a in inst.attributes):
+            return 'the instance mined for the explicit seed %s does not contain the seed' % seed.id
+        if abs(seed.seed_confidences.get(seed.id, 0) - 1.0) > 1e-12:
+            return 'the explicit seed %s has confidence %r in its own instance' % (seed.id, seed.seed_confidences.get(seed.id))
+        for a in inst.attributes:
+            if not (min_conf - 1e-12 <= a.confidence <= 1 + 1e-12):
+                return 'explicit seed %s: attribute %s=%s has confidence %r (minimum %s)' % (seed.id, a.name, a.value, a.confidence, min_conf)
+    except Exception as ex:
+        return 'mining with an explicit seed raised %s' % type(ex).__name__
+    return None
+
+
 def bystander_spec(spec):
     """The same event type names defined differently: event types with concept relations lose them, the others get one."""
     out = json.loads(json.dumps(spec))
@@ -378,6 +411,7 @@ def run(spec, order, min_conf, max_depth, upgrade_at=None, mine_at=None, refuse_
     nodes = [n for n in graph._nodes.values() if isinstance(n, EventObjectNode)]
     insts = []
     noisy_checks = []
+    explicit = explicit_seed_probe(spec, events, min_conf, max_depth, upgrade_at)
     try:
         for seed_id, inst in sorted(kb.concept_collection.concepts.items()):
             attrs = []
@@ -439,6 +473,7 @@ def run(spec, order, min_conf, max_depth, upgrade_at=None, mine_at=None, refuse_
             'late_missing': sorted(v for v in late_values if not any(a['value'] == v for inst in insts for a in inst['attrs'])),
             # coverage, from the events themselves (not from the nodes the graph happens to hold): every object of a property that
             # is associated with a concept
+            'explicit_seed': explicit,
             'missing_objects': sorted([ot, v] for ot, v in {(p['ot'], v) for ev in events for p in by_name[ev['type']]['props'] if p['assocs']
                                                             for n, vs in ev['props'] if n == p['name'] for v in vs}
                                       if not any(a['value'] == v and a['name'].split(':')[0] == ot for inst in insts for a in inst['attrs']))}
@@ -681,6 +716,8 @@ class C20(Property):
                 return '%s: node %s has taint %s' % (what, nid, t)
         if r.get('late_missing') and case['min_conf'] <= 1.0:
             return '%s: objects of the concept-associated property that an ontology upgrade brought are in no instance: %s' % (what, r['late_missing'][:4])
+        if r.get('explicit_seed') and case['min_conf'] <= 1.0:
+            return '%s: %s' % (what, r['explicit_seed'])
         if r.get('missing_objects') and case['min_conf'] <= 1.0:
             return '%s: objects of concept-associated properties in no instance: %s' % (what, r['missing_objects'][:4])
         if r['uncovered'] and case['min_conf'] <= 1.0:
